@@ -259,7 +259,9 @@ def c15_datasets():
     d1 = T["complete"] + T["names"] + [dict(s, eid="k" + s["eid"], job="jk", par=("k" + s["par"]) if s["par"] != NOPAR else NOPAR)
                                       for s in T["complete"]]
     d2 = T["complete"] + T["dangling"] + T["early"] + T["edge"]      # the first run's cleaning removes traces
-    return [("same-shapes", d1, 0), ("cleaning-removes", d2, 1)]
+    # the files contain a re-delivered span (same id twice, next to each other and far apart)
+    d3 = T["complete"][:2] + [dict(T["complete"][1])] + T["names"] + [dict(T["complete"][0])] + T["complete"][2:]
+    return [("same-shapes", d1, 0), ("cleaning-removes", d2, 1), ("duplicated-spans", d3, 0)]
 
 
 def c15_histories(maxlen):
